@@ -5,7 +5,7 @@ from . import obsdeco as DECO
 PROPERTY = "C09"
 DRIVER = "TraitsVerif/Driver/Obs.lean"
 PROPS_MODULES = ["TraitsVerif.Props.C09"]
-TRANSLATORS = ["obsl", "notl"]
+TRANSLATORS = ["obsl", "notl", "nodel"]
 RULE = ("histories over the C08 pool interleaving observe / observe(remove=True) of 2 bound-method handlers (each "
         "also through traits.observation.api.observe with a custom dispatcher that is a fresh, equal bound method at "
         "every call = handler keys 10, 11; failing removals of expression lists whose later part was never "
@@ -21,7 +21,8 @@ TRUSTED = O_TRUSTED = [
     "same model, driver and from-scratch oracle as C08 (harness/props/obslib.py)",
     "SOURCE TIE (translators obsl, notl): the registration walk, the shared undo log, apply_observers and the "
     "notifier reference counting are translated from the source text on every run and the model is PROVED equal "
-    "to their interpretation (C09_*_is_source); the runtime of the interpreters (IObserver node interface, "
+    "to their interpretation (C09_*_is_source), and so are the IObserver methods of the five observer classes "
+    "(translator nodel) and observer_change_handler; the runtime of the interpreters (NodeL primitives, "
     "identity of notifier objects, ==-equal handlers/dispatchers as one identifier) is trusted - see C08 TRUSTED",
     "TEST, not proof: the garbage-collection clause (registrations keep neither the observed object nor a "
     "bound-method handler's owner alive; nothing is called or raised after collection) is checked on the real "
